@@ -161,7 +161,7 @@ PROPS["C04"] = dict(
 PROPS["C08"] = dict(
     pkg="c08", level="exploration", exhaustive_claim=False,
     technique="bounded-exhaustive enumeration of rule subsets x node kinds x all permutations with a metamorphic oracle (order independence) and a clause-by-clause reference table; rapid-sampled larger sets",
-    level_text=("Every subset of size <=2 (quick) / <=3 (thorough) of a 38-atom rule vocabulary is written on each of 10 node kinds, at the root and as an object property, in every order: the verdict must not "
+    level_text=("Every subset of size <=2 (quick) / <=3 (thorough) of a 40-atom rule vocabulary is written on each of 10 node kinds, at the root and as an object property, in every order: the verdict must not "
                 "depend on the order, and where the statement has a clause it must equal a reference table with one block per clause. In the quick tier every 3-subset of atoms of one family (numeric / string / array / object rules together with the generic type, const, nullable, optional, or, enum atoms) is also enumerated on the kinds of that family. Sets of 3-5 rules are sampled with all permutations."),
     level_note="trusted: harness/ref/applicable.go (combinations without a clause are only checked for order independence and counted as excluded)",
     rule=("rule atoms: min/max (in range, equal to the example, disordered), exclusive flags true/false, precision, minLength/maxLength(+disordered), regex, minItems/maxItems(+disordered), additionalProperties, "
